@@ -497,6 +497,10 @@ def run_history(alpha: Alphabet, seed: int, length: int, kinds=None) -> Sim:
             if not items:
                 continue
             rng.shuffle(items)
+            if rng.random() < 0.35:     # negative (still valid) indices
+                items = [((p[0] - c.num_cycles if rng.random() < 0.7 else p[0],
+                           p[1] - c.num_qudits if rng.random() < 0.3 else p[1]),
+                          o) for p, o in items]
             line = 'batch_replace ' + ' '.join(
                 f'{p[0]} {p[1]} {sim.op_text(o)}' for p, o in items)
             attempt(line, f'batch_replace({[p for p, _ in items]}, '
